@@ -990,10 +990,22 @@ class TorControlProtocol(LineOnlyReceiver):
         # print "startCommand",self.code,line
         self.code = int(line[:3])
         # print "startCommand:",self.code
-        if self.command and self.command[2] is not None:
-            self.command[2](line[4:])
+        if self._line_callback() is not None:
+            self._line_callback()(line[4:])
         else:
             self.response = line[4:] + '\n'
+        return None
+
+    def _line_callback(self):
+        """
+        The per-line callback of the in-flight command, or None. Lines
+        of a 600-level (asynchronous event) reply never belong to the
+        in-flight command.
+        """
+        if self.code is not None and self.code >= 600 and self.code < 700:
+            return None
+        if self.command and self.command[2] is not None:
+            return self.command[2]
         return None
 
     def _is_continuation_line(self, line):
@@ -1017,8 +1029,8 @@ class TorControlProtocol(LineOnlyReceiver):
         if line.startswith('.'):
             # undo the dot-stuffing of data lines (control-spec 2.3)
             line = line[1:]
-        if self.command and self.command[2] is not None:
-            self.command[2](line)
+        if self._line_callback() is not None:
+            self._line_callback()(line)
 
         else:
             self.response += (line + '\n')
@@ -1026,8 +1038,8 @@ class TorControlProtocol(LineOnlyReceiver):
 
     def _accumulate_response(self, line):
         "for FSM"
-        if self.command and self.command[2] is not None:
-            self.command[2](line[4:])
+        if self._line_callback() is not None:
+            self._line_callback()(line[4:])
 
         else:
             self.response += (line[4:] + '\n')
